@@ -32,15 +32,19 @@ LEVEL_TEXT = (
     "direction, materializations incl. directly after a transfer, chains with doomed branches, identity leaves, <= 8 / 12 "
     "operations), processed 1-3 times by a real Processor.  The processed result executed in its final engine must "
     "equal direct evaluation; the input tree's fingerprint may change only by materialization payloads; every hook call "
-    "is audited."
+    "is audited.  Histories: the program may be chained with a separately built copy of itself or with the same program "
+    "over twin leaves (equal but distinct relation objects in one tree); after processing, selections / chains / joins "
+    "are built on each cached materialization and the processed tree itself is refined (selection, calculation, each "
+    "engine preferred in turn), processed and executed again."
 )
 LEVEL_NOTE = "trusts: harness Processor subclass (vf/core/proc.py) is truthful; ev_multi labels; SQLite; P1, P4, P8"
 RULE = (
-    "case = (multi-engine program, number of process() calls).  Oracles: rows(execute(process(tree))) compare equal to "
+    "case = (multi-engine program, number of process() calls, combination mode).  Oracles: rows(execute(process(tree))) compare equal to "
     "ev_multi(program) (list / multiset / validity by label); fingerprint(tree) unchanged modulo Materialization payloads; "
     "no Transfer of the input tree gains a payload; result has the same columns and engine; each transfer/materialize "
     "hook call gets a source in which every Transfer carries a payload, with max_rows != 0 and not a join identity; at "
-    "most one hook call per materialization name.  Non-trivial: >= 1 transfer with >= 1 operation on each side of it; "
+    "most one hook call per materialization name; trees built on cached materializations and refinements of the processed "
+    "tree, processed and executed, compare equal to ev_multi of the extended program.  Non-trivial: >= 1 transfer with >= 1 operation on each side of it; "
     "distinct by case digest."
 )
 ASSUMPTIONS = ["P1, P4, P8", "joins only between relations of the SQL engine (iteration engine does not execute joins)"]
